@@ -24,6 +24,7 @@ import (
 type c44World struct {
 	r    *round.Round
 	b    *block.Block
+	b2   *block.Block
 	vts  []*block.VerificationTicket // built by the setup thread
 	outs []int                       // one slot per thread, written by that thread only
 }
@@ -118,6 +119,208 @@ func c44Harnesses() []c44Harness {
 				func(w *c44World, slot *int) { w.r.AddNotarizedBlock(mkBlock("h1", 0, "v2")) },
 				func(w *c44World, slot *int) { w.r.AddNotarizedBlock(mkBlock("h1", 0, "v3")) },
 				func(w *c44World, slot *int) { *slot = len(w.b.GetVerificationTickets()) },
+			},
+		},
+		{
+			// miner/protocol_bls.go:303,376 (AddVRFShare from the share handler), miner/protocol_bls.go:269,272 and miner/worker.go:157
+			// (GetVRFShares when collecting shares / reporting)
+			name: "round: AddVRFShare || GetVRFShares || AddVRFShare(other miner)",
+			threads: []func(w *c44World, slot *int){
+				func(w *c44World, slot *int) {
+					s := &round.VRFShare{Round: 7, Share: "s0"}
+					s.SetParty(c37Nodes[0])
+					if w.r.AddVRFShare(s, 2) {
+						*slot = 1
+					}
+				},
+				func(w *c44World, slot *int) { *slot = len(w.r.GetVRFShares()) },
+				func(w *c44World, slot *int) {
+					s := &round.VRFShare{Round: 7, Share: "s1"}
+					s.SetParty(c37Nodes[1])
+					if !w.r.VRFShareExist(s) && w.r.AddVRFShare(s, 2) {
+						*slot = 1
+					}
+				},
+			},
+		},
+		{
+			// chain/protocol_block.go:267 (AddVerificationTicket), miner/protocol_send.go:30 (GetVerificationTickets),
+			// sharder/protocol_block.go:48 and chain/entity.go:1624 (Clone)
+			name: "block: AddVerificationTicket || GetVerificationTickets || Clone",
+			setup: func(w *c44World) {
+				w.b = mkBlock("h1", 0, "v1")
+				w.vts = []*block.VerificationTicket{{VerifierID: "v2", Signature: "sig-v2"}}
+			},
+			threads: []func(w *c44World, slot *int){
+				func(w *c44World, slot *int) {
+					if w.b.AddVerificationTicket(w.vts[0]) {
+						*slot = 1
+					}
+				},
+				func(w *c44World, slot *int) { *slot = len(w.b.GetVerificationTickets()) },
+				func(w *c44World, slot *int) { *slot = len(w.b.Clone().VerificationTickets) },
+			},
+		},
+		{
+			// chain/entity.go:1592 (AddUniqueBlockExtension when a block extends this one), chain/protocol_block.go:595
+			// (GetUniqueBlockExtensions at finalization), sharder/protocol_block.go:48 (Clone)
+			name:  "block: AddUniqueBlockExtension || GetUniqueBlockExtensions || Clone",
+			setup: func(w *c44World) { w.b = mkBlock("h1", 0); w.b2 = mkBlock("h2", 0); w.b2.MinerID = "miner-2" },
+			threads: []func(w *c44World, slot *int){
+				func(w *c44World, slot *int) { w.b.AddUniqueBlockExtension(w.b2) },
+				func(w *c44World, slot *int) { *slot = len(w.b.GetUniqueBlockExtensions()) },
+				func(w *c44World, slot *int) { *slot = len(w.b.Clone().GetUniqueBlockExtensions()) },
+			},
+		},
+		{
+			// miner/protocol_round.go:865,871 (SetBlockState from the verification path), miner/protocol_round.go:974,993,1573
+			// (GetBlockState from the round/ticket collection paths), sharder/protocol_block.go:48 (Clone)
+			name:  "block: SetBlockState || GetBlockState || Clone",
+			setup: func(w *c44World) { w.b = mkBlock("h1", 0) },
+			threads: []func(w *c44World, slot *int){
+				func(w *c44World, slot *int) { w.b.SetBlockState(block.StateVerificationAccepted) },
+				func(w *c44World, slot *int) { *slot = int(w.b.GetBlockState()) },
+				func(w *c44World, slot *int) { *slot = int(w.b.Clone().GetBlockState()) },
+			},
+		},
+		{
+			// miner/chain.go:280, miner/protocol_block.go:1302 (SetStateStatus), miner/m_handler.go:197, miner/protocol_round.go:429,508
+			// (GetStateStatus), chain/entity.go:1624 (Clone handed to other goroutines)
+			name:  "block: SetStateStatus || GetStateStatus || Clone",
+			setup: func(w *c44World) { w.b = mkBlock("h1", 0) },
+			threads: []func(w *c44World, slot *int){
+				func(w *c44World, slot *int) { w.b.SetStateStatus(block.StateSuccessful) },
+				func(w *c44World, slot *int) { *slot = int(w.b.GetStateStatus()) },
+				func(w *c44World, slot *int) { *slot = int(w.b.Clone().GetStateStatus()) },
+			},
+		},
+		{
+			// round.AddNotarizedBlock -> SetBlockNotarized (miner/protocol_round.go:1131), miner/m_handler.go:188,336,441 and
+			// miner/protocol_round.go:757,1074 (IsBlockNotarized), sharder/protocol_block.go:48 (Clone)
+			name:  "block: SetBlockNotarized || IsBlockNotarized || Clone",
+			setup: func(w *c44World) { w.b = mkBlock("h1", 0) },
+			threads: []func(w *c44World, slot *int){
+				func(w *c44World, slot *int) { w.b.SetBlockNotarized() },
+				func(w *c44World, slot *int) {
+					if w.b.IsBlockNotarized() {
+						*slot = 1
+					}
+				},
+				func(w *c44World, slot *int) {
+					if w.b.Clone().IsBlockNotarized() {
+						*slot = 1
+					}
+				},
+			},
+		},
+		{
+			// miner/protocol_round.go:588,666,955 (AddProposedBlock), miner/m_handler.go:321, miner/worker.go:158,
+			// miner/protocol_round.go:363 (GetProposedBlocks), chain/handler.go:722, chain/json_handler.go:410 (GetBestRankedProposedBlock)
+			name:  "round: AddProposedBlock || GetProposedBlocks || GetBestRankedProposedBlock",
+			setup: func(w *c44World) { w.r.AddProposedBlock(mkBlock("h1", 1)); w.b2 = mkBlock("h2", 0) },
+			threads: []func(w *c44World, slot *int){
+				func(w *c44World, slot *int) { w.r.AddProposedBlock(w.b2) },
+				func(w *c44World, slot *int) { *slot = len(w.r.GetProposedBlocks()) },
+				func(w *c44World, slot *int) {
+					if b := w.r.GetBestRankedProposedBlock(); b != nil {
+						*slot = b.RoundRank + 1
+					}
+				},
+			},
+		},
+		{
+			// miner/chain.go:237, miner/protocol_bls.go:509, miner/protocol_receive.go:505 (SetRandomSeed), miner/round.go:133,
+			// miner/protocol_bls.go:166 (GetRandomSeed), miner/round.go:244, miner/protocol_bls.go:169, miner/protocol_round.go:235 (HasRandomSeed)
+			name: "round: SetRandomSeed || GetRandomSeed || HasRandomSeed+IsRanksComputed",
+			threads: []func(w *c44World, slot *int){
+				func(w *c44World, slot *int) { w.r.SetRandomSeed(4242, 3) },
+				func(w *c44World, slot *int) { *slot = int(w.r.GetRandomSeed()) },
+				func(w *c44World, slot *int) {
+					if w.r.HasRandomSeed() {
+						*slot = 1
+					}
+					if w.r.IsRanksComputed() {
+						*slot += 2
+					}
+				},
+			},
+		},
+		{
+			// sharder/chain.go:609, chain/entity.go:1538 (SetRandomSeedForNotarizedBlock when a notarized block arrives) against
+			// miner/protocol_bls.go:509 (SetRandomSeed from the VRF path) and chain/entity.go:1985 (rank lookups: IsRanksComputed guards GetMinerRank)
+			name: "round: SetRandomSeedForNotarizedBlock || SetRandomSeed || IsRanksComputed+GetRandomSeed",
+			threads: []func(w *c44World, slot *int){
+				func(w *c44World, slot *int) { w.r.SetRandomSeedForNotarizedBlock(777, 3) },
+				func(w *c44World, slot *int) { w.r.SetRandomSeed(4242, 3) },
+				func(w *c44World, slot *int) {
+					if w.r.IsRanksComputed() {
+						*slot = int(w.r.GetRandomSeed())
+					}
+				},
+			},
+		},
+		{
+			// miner/chain.go:240, miner/protocol_block.go:669, sharder/chain.go:190 (Finalize), miner/m_handler.go:484, miner/worker.go:142,
+			// miner/protocol_round.go:223 (IsFinalized), sharder/protocol_block.go:54, chain/worker.go:382 (GetBlockHash)
+			name:  "round: Finalize || IsFinalized || GetBlockHash",
+			setup: func(w *c44World) { w.b = mkBlock("h1", 0) },
+			threads: []func(w *c44World, slot *int){
+				func(w *c44World, slot *int) { w.r.Finalize(w.b) },
+				func(w *c44World, slot *int) {
+					if w.r.IsFinalized() {
+						*slot = 1
+					}
+				},
+				func(w *c44World, slot *int) { *slot = len(w.r.GetBlockHash()) },
+			},
+		},
+		{
+			// miner/protocol_round.go:1098 (SetPrevBlockVerificationTickets when generating), miner/protocol_round.go:775,791,795
+			// (GetPrevBlockVerificationTickets), sharder/protocol_block.go:48 (Clone -> UnverifiedBlockBody.Clone)
+			name: "block: SetPrevBlockVerificationTickets || GetPrevBlockVerificationTickets || Clone",
+			setup: func(w *c44World) {
+				w.b = mkBlock("h1", 0)
+				w.vts = []*block.VerificationTicket{{VerifierID: "v2", Signature: "sig-v2"}}
+			},
+			threads: []func(w *c44World, slot *int){
+				func(w *c44World, slot *int) { w.b.SetPrevBlockVerificationTickets(w.vts) },
+				func(w *c44World, slot *int) { *slot = len(w.b.GetPrevBlockVerificationTickets()) },
+				func(w *c44World, slot *int) { *slot = len(w.b.Clone().PrevBlockVerificationTickets) },
+			},
+		},
+		{
+			// chain/protocol_block.go:283 (MergeVerificationTickets), miner/protocol_receive.go:437 (UnknownTickets),
+			// miner/protocol_round.go:366,650,779 (VerificationTicketsSize)
+			name: "block: MergeVerificationTickets || UnknownTickets || VerificationTicketsSize",
+			setup: func(w *c44World) {
+				w.b = mkBlock("h1", 0, "v1")
+				w.vts = []*block.VerificationTicket{{VerifierID: "v2", Signature: "sig-v2"}, {VerifierID: "v1", Signature: "sig-v1"}}
+			},
+			threads: []func(w *c44World, slot *int){
+				func(w *c44World, slot *int) { w.b.MergeVerificationTickets(w.vts[:1]) },
+				func(w *c44World, slot *int) { *slot = len(w.b.UnknownTickets(w.vts)) },
+				func(w *c44World, slot *int) { *slot = w.b.VerificationTicketsSize() },
+			},
+		},
+		{
+			// miner/protocol_round.go:1660 (IncrementTimeoutCount from the round timeout handler), miner/protocol_bls.go:181,220,244
+			// (GetTimeoutCount when checking incoming shares), miner/protocol_bls.go:286 (AddTimeoutVote from the share handler)
+			name: "round: IncrementTimeoutCount || GetTimeoutCount || AddTimeoutVote",
+			threads: []func(w *c44World, slot *int){
+				func(w *c44World, slot *int) { w.r.IncrementTimeoutCount(1234, c37Miners) },
+				func(w *c44World, slot *int) { *slot = w.r.GetTimeoutCount() },
+				func(w *c44World, slot *int) { w.r.AddTimeoutVote(3, c37Nodes[1].GetKey()) },
+			},
+		},
+		{
+			// miner/protocol_round.go:878,1070,1080 (SetVerificationStatus from the verification path), chain/visualizer_handler.go:86
+			// (GetVerificationStatus from an HTTP handler), sharder/protocol_block.go:48 (Clone)
+			name:  "block: SetVerificationStatus || GetVerificationStatus || Clone",
+			setup: func(w *c44World) { w.b = mkBlock("h1", 0) },
+			threads: []func(w *c44World, slot *int){
+				func(w *c44World, slot *int) { w.b.SetVerificationStatus(block.VerificationSuccessful) },
+				func(w *c44World, slot *int) { *slot = w.b.GetVerificationStatus() },
+				func(w *c44World, slot *int) { *slot = w.b.Clone().GetVerificationStatus() },
 			},
 		},
 	}
